@@ -21,8 +21,8 @@ VERIF = os.path.dirname(TOOLS)
 sys.path.insert(0, TOOLS)
 import assemble as asm
 
-BUILD = os.path.join(VERIF, 'build')
-EVID = os.path.join(VERIF, 'evidence')
+BUILD = os.environ.get('VERIF_BUILD_DIR') or os.path.join(VERIF, 'build')
+EVID = os.environ.get('VERIF_EVIDENCE_DIR') or os.path.join(VERIF, 'evidence')
 REPLAYS = os.path.join(VERIF, 'replays')
 PROPS = json.load(open(os.path.join(VERIF, 'contracts', 'properties.json')))
 VERUS = shutil.which('verus') or '/opt/veriftools/verus/verus'
